@@ -717,6 +717,10 @@ def call_term(e, ctx):
             r = _plain_getter(o, n, ctx)
             if r is not None:
                 return r
+        if args and o is not None:
+            r = _value_helper(o, n, args, ctx)
+            if r is not None:
+                return r
         return unk(e)
     # free functions
     if n in ("max", "min") and len(args) == 0 and "numeric_limits" in (q or ""):
@@ -742,6 +746,12 @@ def call_term(e, ctx):
     if len(args) == 0 and e["f"].get("d") in ("func", "CXXMethod", "unresolved") and e["f"].get("k") in ("ref", "mem") and \
             not (e["f"].get("qual") or ""):
         r = _plain_getter(ctx.this_name, n, ctx)
+        if r is not None:
+            return r
+    if args and e["f"].get("d") in ("func", "CXXMethod", "unresolved") and e["f"].get("k") in ("ref", "mem") and \
+            not (e["f"].get("qual") or "") and n not in ("min", "max", "clamp", "forward", "move", "as_const", "distance", "next",
+                                                        "prev", "length", "strlen") + SIZE_NAMES + BEGIN_NAMES + END_NAMES:
+        r = _value_helper(ctx.this_name, n, args, ctx)
         if r is not None:
             return r
     if n in ("min", "max") and len(args) == 2:
@@ -906,6 +916,61 @@ def _plain_getter(o, n, ctx):
     saved = _CUR.get("ctx")
     try:
         r = getter(o, n, ctx, ctx.depth)
+    finally:
+        _CUR["ctx"] = saved if saved is not None else ctx
+    if r is None or has_unknown(r):
+        return None
+    return r
+
+
+def _value_helper(o, n, args, ctx):
+    """inline a const/static member of o's record that takes scalar arguments and whose body is const local
+    declarations followed by one `return e;` -- only when the result is a fully modelled term (else None)."""
+    if ctx.db is None or ctx.depth > 3:
+        return None
+    try:
+        rec_q, tmap = ctx.record_of(o)
+    except Exception:
+        return None
+    if rec_q is None:
+        return None
+    cands = [f for f in ctx.db.methods(rec_q, n) if len(f["params"]) == len(args) and not any(p.get("pack") for p in f["params"])]
+    if len(cands) != 1:
+        return None
+    f = cands[0]
+    if not (f.get("const") or f.get("static")):
+        return None
+    b = f.get("body")
+    if not b or b.get("k") != "seq" or not b["s"] or b["s"][-1].get("k") != "return" or b["s"][-1].get("e") is None:
+        return None
+    for st in b["s"][:-1]:
+        if st.get("k") != "decl" or any(v.get("init") is None or "other" in v or not (v.get("const") or "const" in (v.get("ty") or ""))
+                                        for v in st["vars"]):
+            return None
+    saved = _CUR.get("ctx")
+    try:
+        sub = TermCtx(f, ctx.db, this_name=o)
+        sub.builder = getattr(ctx, "builder", None)
+        sub.nttp_map = tmap
+        sub.depth = ctx.depth + 1
+        sub.obj_types.update(ctx.obj_types)
+        sub.type_ctx = dict(ctx.type_ctx)
+        for p_, a in zip(f["params"], args):
+            if not p_.get("n"):
+                continue
+            t = to_term(a, ctx)
+            if has_unknown(t):
+                return None
+            sub.locals[p_["n"]] = t
+        for st in b["s"][:-1]:
+            for v in st["vars"]:
+                t = to_term(v["init"], sub)
+                if has_unknown(t):
+                    return None
+                sub.locals[v["n"]] = t
+        r = to_term(b["s"][-1]["e"], sub)
+    except Exception:
+        return None
     finally:
         _CUR["ctx"] = saved if saved is not None else ctx
     if r is None or has_unknown(r):
